@@ -1,10 +1,7 @@
 #!/usr/bin/env python3
 import json,glob
-print('| seeded change | property | needs, in order to manifest | detected by (quick tier) | violated obligations |')
-print('|---|---|---|---|---|')
+print('| seeded change | property | needs, in order to manifest | detected by (quick tier, exit 1 + VIOLATION line) |')
+print('|---|---|---|---|')
 for f in sorted(glob.glob('/verif/seeded/*/meta.json')):
     m=json.load(open(f))
-    obl=[]
-    for c,x in m.get('checks',{}).items():
-        obl+=x.get('violated_obligations',[])
-    print('| %s | %s | %s | %s | %s |'%(m['name'],m['property'],m['needs_to_manifest'],', '.join(m.get('detected_by',[])) or '**not detected**','; '.join(obl[:3])))
+    print('| %s | %s | %s | %s |'%(m['name'],m['property'],m['needs_to_manifest'],', '.join(m.get('detected_by',[])) or '**not detected**'))
